@@ -18,6 +18,7 @@ ORACLE_OF = {
     # an attempt that was started is driven to its end (so its after hook runs and its World is handed over) whatever else
     # happens in the run - in particular when another scenario trips fail-fast while it is in flight
     'C09': ['every-started-attempt-finishes'],
+    'C02': ['every-started-attempt-finishes'],
 }
 
 
@@ -132,6 +133,7 @@ def worlds(tier, focus):
     return W
 
 
+@common.part
 def run(chk, prop, selected=None):
     names = ORACLE_OF[prop]
     obs = {}
